@@ -2,7 +2,11 @@ package main
 
 import (
 	"fmt"
+	"go/ast"
+	"go/constant"
 	"go/types"
+	"sort"
+	"strings"
 
 	"golang.org/x/tools/go/ssa"
 )
@@ -26,6 +30,9 @@ func init() {
 			{ID: "R19c", Floor: 3, Doc: "filter gate polarity, root filtering by the same predicate, scan ends only on EOF", Run: ruleR19c},
 			{ID: "R19d", Floor: 5, Doc: "re-emission offsets and pass-through copies", Run: ruleR19d},
 			{ID: "R19f", Floor: 3, Doc: "concat skips each input's own header; `index create` regenerates the index from the payload; CLI output files are opened truncating", Run: ruleR19f},
+			{ID: "R19h", Floor: 1, Doc: "CLI flag lineage: a subcommand defines no flag whose name or alias an enclosing command already defines (urfave/cli resolves c.String(name) innermost-first, so the shadowing default silently overrides `car index --codec=X create`)", Run: ruleR19h},
+			{ID: "R19i", Floor: 1, Doc: "the commands agree on parser limits: no command of the CLI lowers MaxAllowedSectionSize/MaxAllowedHeaderSize for itself (what index/filter emit and verify accepts, inspect must accept)", Run: ruleR19i},
+			{ID: "R19j", Floor: 1, Doc: "line-oriented input of the CLI: data returned by bufio ReadString/ReadBytes together with io.EOF (an unterminated last line) is not dropped", Run: ruleR19j},
 			{ID: "R19g", Floor: 1, Doc: "car verify applies its index-placement check only to archives whose header claims an index", Run: ruleR19g},
 			{ID: "R19e", Floor: 2, Doc: "get-dag: link-visit-once derives from !IsSet(selector)", Run: ruleR19e},
 		},
@@ -211,20 +218,48 @@ func isIface(t types.Type, pkg, name string) bool {
 	return ok && n.Obj().Pkg() != nil && n.Obj().Pkg().Path() == pkg && n.Obj().Name() == name
 }
 
+// filterParams finds the (cid, set, invert) parameters of a function by type and
+// name rather than by position: the set is the map-typed parameter, invert the bool
+// parameter called invert (or the only bool), the CID the cid.Cid parameter.
+func filterParams(fn *ssa.Function) (cidIdx, setIdx, invIdx int) {
+	cidIdx, setIdx, invIdx = -1, -1, -1
+	nbool := 0
+	for i, p := range fn.Params {
+		switch t := p.Type().Underlying().(type) {
+		case *types.Map:
+			setIdx = i
+		case *types.Basic:
+			if t.Kind() == types.Bool {
+				nbool++
+				if invIdx < 0 || strings.EqualFold(p.Name(), "invert") || strings.EqualFold(p.Name(), "inverse") {
+					if invIdx < 0 || strings.HasPrefix(strings.ToLower(p.Name()), "inver") {
+						invIdx = i
+					}
+				}
+			}
+		}
+		if isNamed(p.Type(), pkgCid, "Cid") {
+			cidIdx = i
+		}
+	}
+	return
+}
+
 func ruleR19c(c *Ctx, r *Report) {
 	mf, err := c.Func(pkgCmdLib, "", "matchFilter")
 	if err != nil {
 		r.InfraFail("%v", err)
 		return
 	}
+	mCid, mSet, mInv := filterParams(mf)
 	// matchFilter: present -> !invert, absent -> invert
 	{
 		key := "filter-polarity@" + fnKey(mf)
 		bad := ""
-		if len(mf.Params) != 3 {
-			bad = "signature changed"
+		if mCid < 0 || mSet < 0 || mInv < 0 {
+			bad = "signature changed: no (cid.Cid, set, invert bool) parameters found"
 		} else {
-			inv := mf.Params[2]
+			inv := mf.Params[mInv]
 			present := condEdges(mf, func(base ssa.Value) (bool, bool) {
 				if ex, ok := base.(*ssa.Extract); ok && ex.Index == 1 {
 					if lk, ok := ex.Tuple.(*ssa.Lookup); ok && lk.CommaOk {
@@ -268,21 +303,22 @@ func ruleR19c(c *Ctx, r *Report) {
 	{
 		key := "filter-gate@" + fnKey(fn)
 		bad := ""
-		if len(puts) != 1 || len(nexts) != 1 || len(fn.Params) < 5 {
-			bad = "expected one Put and one BlockReader.Next in FilterCar"
+		_, fSet, fInv := filterParams(fn)
+		if len(puts) != 1 || len(nexts) != 1 || fSet < 0 || fInv < 0 || mCid < 0 || mSet < 0 || mInv < 0 {
+			bad = "expected one Put and one BlockReader.Next in FilterCar, and set/invert parameters"
 		} else {
 			blk := extractOf(nexts[0].Value(), 0)
 			okc := 0
 			gate := condEdges(fn, matchCallCond(pkgCmdLib, "", "matchFilter", true, func(cl *ssa.Call) bool {
 				// matchFilter(blk.Cid(), cidMap, invert)
-				cc, _ := callOf(canon(cl.Call.Args[0]))
+				cc, _ := callOf(canon(cl.Call.Args[mCid]))
 				if cc == nil || calleeFunc(cc.Common()) == nil || calleeFunc(cc.Common()).Name() != "Cid" {
 					return false
 				}
 				if canon(stripIface(callArgs(cc.Common())[0])) != blk {
 					return false
 				}
-				if canon(cl.Call.Args[1]) != ssa.Value(fn.Params[3]) || canon(cl.Call.Args[2]) != ssa.Value(fn.Params[4]) {
+				if canon(cl.Call.Args[mSet]) != ssa.Value(fn.Params[fSet]) || canon(cl.Call.Args[mInv]) != ssa.Value(fn.Params[fInv]) {
 					return false
 				}
 				okc++
@@ -300,7 +336,7 @@ func ruleR19c(c *Ctx, r *Report) {
 			if bad == "" {
 				cut := EdgeSet{}
 				for i := range puts[0].Block().Succs {
-					cut[Edge{puts[0].Block(), i}] = true
+					cut[Edge{From: puts[0].Block(), Succ: i}] = true
 				}
 				for _, e := range gate {
 					if e.From.Succs[e.Succ] != puts[0].Block() && reachFromEdge(fn, e, cut)[nexts[0].Block()] {
@@ -339,8 +375,9 @@ func ruleR19c(c *Ctx, r *Report) {
 	{
 		key := "filter-roots@" + fnKey(fn)
 		n := 0
+		_, fSet, fInv := filterParams(fn)
 		for _, ci := range callsToFunc(fn, pkgCmdLib, "", "matchFilter") {
-			if len(fn.Params) >= 5 && canon(ci.Common().Args[1]) == ssa.Value(fn.Params[3]) && canon(ci.Common().Args[2]) == ssa.Value(fn.Params[4]) {
+			if fSet >= 0 && fInv >= 0 && mSet >= 0 && mInv >= 0 && canon(ci.Common().Args[mSet]) == ssa.Value(fn.Params[fSet]) && canon(ci.Common().Args[mInv]) == ssa.Value(fn.Params[fInv]) {
 				n++
 			}
 		}
@@ -659,4 +696,232 @@ func ruleR19g(c *Ctx, r *Report) {
 		}
 	}
 	r.Check(bad == "", key, c.Pos(fn.Pos()), "index-placement check only behind HasIndex()", bad)
+}
+
+// ruleR19h walks the cli.App literal of package cmd/car.
+func ruleR19h(c *Ctx, r *Report) {
+	p := c.Pkgs[pkgCmdCar]
+	if p == nil {
+		r.InfraFail("package %s not loaded", pkgCmdCar)
+		return
+	}
+	info := p.TypesInfo
+	isCli := func(t types.Type, name string) bool {
+		n := namedOf(t)
+		return n != nil && n.Obj().Name() == name && n.Obj().Pkg() != nil && strings.Contains(n.Obj().Pkg().Path(), "urfave/cli")
+	}
+	field := func(cl *ast.CompositeLit, name string) ast.Expr {
+		for _, e := range cl.Elts {
+			if kv, ok := e.(*ast.KeyValueExpr); ok {
+				if id, ok := kv.Key.(*ast.Ident); ok && id.Name == name {
+					return kv.Value
+				}
+			}
+		}
+		return nil
+	}
+	lit := func(e ast.Expr) *ast.CompositeLit {
+		if u, ok := e.(*ast.UnaryExpr); ok {
+			e = u.X
+		}
+		cl, _ := e.(*ast.CompositeLit)
+		return cl
+	}
+	strs := func(e ast.Expr) []string {
+		var out []string
+		if e == nil {
+			return nil
+		}
+		if tv, ok := info.Types[e]; ok && tv.Value != nil && tv.Value.Kind() == constant.String {
+			return []string{constant.StringVal(tv.Value)}
+		}
+		if cl := lit(e); cl != nil {
+			for _, el := range cl.Elts {
+				if tv, ok := info.Types[el]; ok && tv.Value != nil && tv.Value.Kind() == constant.String {
+					out = append(out, constant.StringVal(tv.Value))
+				}
+			}
+		}
+		return out
+	}
+	flagNames := func(cl *ast.CompositeLit) []string {
+		var out []string
+		fl := lit(field(cl, "Flags"))
+		if fl == nil {
+			return nil
+		}
+		for _, fe := range fl.Elts {
+			f := lit(fe)
+			if f == nil {
+				continue
+			}
+			out = append(out, strs(field(f, "Name"))...)
+			out = append(out, strs(field(f, "Aliases"))...)
+		}
+		return out
+	}
+	n := 0
+	var walk func(cl *ast.CompositeLit, path string, inherited map[string]string)
+	walk = func(cl *ast.CompositeLit, path string, inherited map[string]string) {
+		own := flagNames(cl)
+		if len(inherited) > 0 {
+			n++
+			var bad []string
+			for _, f := range own {
+				if by, ok := inherited[f]; ok {
+					bad = append(bad, fmt.Sprintf("flag %q is already defined by `%s`", f, by))
+				}
+			}
+			sort.Strings(bad)
+			r.Check(len(bad) == 0, "flag-lineage@"+path, c.Pos(cl.Pos()), fmt.Sprintf("%d own flag names, none shadows an enclosing command's", len(own)),
+				strings.Join(bad, "; ")+": the action reads the flag through the context lineage and now sees this command's default instead of the value given to the enclosing command")
+		}
+		next := map[string]string{}
+		for k, v := range inherited {
+			next[k] = v
+		}
+		for _, f := range own {
+			next[f] = path
+		}
+		for _, fname := range []string{"Subcommands", "Commands"} {
+			subs := lit(field(cl, fname))
+			if subs == nil {
+				continue
+			}
+			for _, se := range subs.Elts {
+				sc := lit(se)
+				if sc == nil {
+					continue
+				}
+				nm := strs(field(sc, "Name"))
+				name := "?"
+				if len(nm) > 0 {
+					name = nm[0]
+				}
+				walk(sc, path+" "+name, next)
+			}
+		}
+	}
+	found := false
+	for _, f := range p.Syntax {
+		ast.Inspect(f, func(nd ast.Node) bool {
+			cl, ok := nd.(*ast.CompositeLit)
+			if !ok {
+				return true
+			}
+			if t := info.TypeOf(cl); t != nil && isCli(t, "App") {
+				found = true
+				walk(cl, "car", map[string]string{})
+				return false
+			}
+			return true
+		})
+	}
+	if !found {
+		r.Undec("flag-lineage@car", "-", "cli.App literal not found in package cmd/car")
+		return
+	}
+	r.Count("nested commands checked for flag shadowing", n)
+}
+
+// optionCallsIn: the carv2 option constructors whose results flow into v (a variadic options argument).
+func optionCallsIn(v ssa.Value) []*ssa.Call {
+	var out []*ssa.Call
+	for x := range flowSources(v) {
+		if cl, ok := x.(*ssa.Call); ok {
+			if f := calleeFunc(cl.Common()); f != nil && f.Pkg() != nil && f.Pkg().Path() == modV2 {
+				out = append(out, cl)
+			}
+		}
+	}
+	return out
+}
+
+func ruleR19i(c *Ctx, r *Report) {
+	var bad []string
+	n := 0
+	for _, fn := range c.RepoFuncs() {
+		if fn.Pkg == nil || !strings.HasPrefix(fn.Pkg.Pkg.Path(), modCmd) {
+			continue
+		}
+		eachInstr(fn, func(in ssa.Instruction) {
+			ci, ok := in.(*ssa.Call)
+			if !ok {
+				return
+			}
+			f := calleeFunc(ci.Common())
+			if f == nil || f.Pkg() == nil {
+				return
+			}
+			if funcIs(f, modV2, "", "MaxAllowedSectionSize") || funcIs(f, modV2, "", "MaxAllowedHeaderSize") {
+				bad = append(bad, fmt.Sprintf("%s passes %s at %s", fnKey(fn), f.Name(), c.Pos(ci.Pos())))
+			}
+			if strings.HasPrefix(f.Pkg().Path(), modV2) && f.Type().(*types.Signature).Variadic() {
+				n++
+			}
+		})
+	}
+	sort.Strings(bad)
+	r.Check(len(bad) == 0, "limits-agree@cmd/car", "-", fmt.Sprintf("%d option-taking library calls in the CLI, none sets a section or header limit of its own", n),
+		strings.Join(bad, "; ")+": that command now rejects archives the other commands emit and verify accepts (all others run with the library defaults)")
+}
+
+func ruleR19j(c *Ctx, r *Report) {
+	n := 0
+	for _, fn := range c.RepoFuncs() {
+		if fn.Pkg == nil || !strings.HasPrefix(fn.Pkg.Pkg.Path(), modCmd) {
+			continue
+		}
+		ord := 0
+		eachInstr(fn, func(in ssa.Instruction) {
+			ci, ok := in.(*ssa.Call)
+			if !ok {
+				return
+			}
+			f := calleeFunc(ci.Common())
+			if !(funcIs(f, "bufio", "Reader", "ReadString") || funcIs(f, "bufio", "Reader", "ReadBytes")) {
+				return
+			}
+			n++
+			ord++
+			key := fmt.Sprintf("eof-line@%s#%d", fnKey(fn), ord)
+			data := extractOf(ci, 0)
+			useBlocks := map[*ssa.BasicBlock]bool{}
+			sameBlockUse := false
+			if data != nil {
+				for _, ref := range *data.Referrers() {
+					if _, isDbg := ref.(*ssa.DebugRef); isDbg {
+						continue
+					}
+					if ref.Block() == ci.Block() {
+						sameBlockUse = true
+					}
+					useBlocks[ref.Block()] = true
+				}
+			}
+			if sameBlockUse {
+				r.Hold(key, c.Pos(ci.Pos()), "the data is used before the error is looked at")
+				return
+			}
+			cut := edgeSet(condEdges(fn, errNilCond(errOfCall(ci), true)))
+			for _, b := range fn.Blocks {
+				for i, sc := range b.Succs {
+					if useBlocks[sc] {
+						cut[Edge{From: b, Succ: i}] = true
+					}
+				}
+			}
+			rs := reach(fn, ci.Block(), cut)
+			bad := ""
+			for _, ret := range returnsOf(fn) {
+				if rs[ret.Block()] && resultIsNilConst(ret, len(ret.Results)-1) {
+					bad = fmt.Sprintf("on the error outcome of %s the function returns success at %s without looking at the data returned with it: ReadString/ReadBytes hand back an unterminated last line together with io.EOF, so the last entry of the input is dropped", f.Name(), c.Pos(ret.Pos()))
+				}
+			}
+			r.Check(bad == "", key, c.Pos(ci.Pos()), "data returned together with the error is consumed", bad)
+		})
+	}
+	if n == 0 {
+		r.Hold("eof-line@cmd/car", "-", "no ReadString/ReadBytes in the CLI (line input goes through ReadLine, which returns the last line before io.EOF)")
+	}
 }
